@@ -59,7 +59,55 @@ def full_obs(d, shape):
 def compare_fresh(d, shape):
     fr = fresh_copy(d)
     a, b = full_obs(d, shape), full_obs(fr, shape)
-    return [k for k in a if a[k] != b.get(k)]
+    diff = [k for k in a if a[k] != b.get(k)]
+    # the label map is derived state too: after whatever happened it names existing structures only (the fresh copy is
+    # built FROM it, so this is checked on its own), and every pixel can be looked up
+    ids = set(int(s.idx) for s in d)
+    stale = sorted(set(int(l) for l in d.index_map.ravel().tolist() if l >= 0) - ids)
+    if stale:
+        diff.append('label map (still holds the identifiers %s of structures that no longer exist)' % stale)
+    else:
+        try:
+            for p in np.ndindex(*shape):
+                d.structure_at(p)
+        except Exception as e:
+            diff.append('structure_at (raised %r)' % (e,))
+    return diff
+
+
+def junction_with_parent_stream(ctx):
+    """Corpus (from a reviewer's change that reset the caches only after a two-sibling merge): a junction pixel where
+    three arms meet - a branch B with three children - which itself has a parent P; everything is queried, then a prune
+    removes ONE arm (B keeps two children, nothing is re-parented).  What P and B report afterwards must be what a fresh
+    dendrogram reports.  All eight orientations, values rescaled, the removed arm varied by the threshold."""
+    from astrodendro import Dendrogram
+    base = np.array([[0, 0, 9, 0, 0], [0, 0, 8, 0, 0], [7, 6, 3, 5, 7.5], [0, 0, 1, 0, 0], [0, 0, 6.5, 0, 0]])
+    for tr in (False, True):
+        for fy in (1, -1):
+            for fx in (1, -1):
+                for a_, b_ in ((1, 0), (2, 0), (4, 8)):
+                    for delta in (2.2, 2.6):
+                        arr = np.ascontiguousarray((base.T if tr else base)[::fy, ::fx]) * a_
+                        arr = np.where(arr > 0, arr + b_, 0.0)
+                        shape = arr.shape
+                        info = {'stream': 'junction with a parent', 'shape': list(shape), 'data': arr.ravel().tolist(),
+                                'history': ['compute(min_value=%r)' % (0.5 * a_ + b_ if b_ == 0 else b_ + 0.5,), 'all queries', 'prune(min_delta=%r)' % (delta * a_,)]}
+                        try:
+                            d = Dendrogram.compute(arr, min_value=(0.5 * a_) if b_ == 0 else (b_ + 0.5))
+                            n0 = len(d)
+                            full_obs(d, shape)                                # every query once
+                            d.prune(min_delta=delta * a_)
+                            diff = compare_fresh(d, shape)
+                            removed = n0 - len(d)
+                        except Exception as e:
+                            ctx.oracle_failure(info, ['raised %r' % (e,)])
+                            continue
+                        ctx.count('junction_with_parent_histories')
+                        ctx.case_done(None, ('junction', tuple(arr.ravel().tolist()), delta) if removed > 0 else None)
+                        if n0 != 6:
+                            ctx.oracle_failure(info, ['the corpus image no longer gives six structures (%d): generator out of date' % n0])
+                        if diff:
+                            ctx.oracle_failure(info, ['after compute, every query and prune(min_delta=%r) the live dendrogram differs from a freshly constructed one in: %s' % (delta * a_, diff[:5])])
 
 
 def tied_trunk_stream(ctx):
@@ -256,6 +304,7 @@ def same_file_stream(ctx):
 
 
 def explore(ctx):
+    junction_with_parent_stream(ctx)
     tied_trunk_stream(ctx)
     tied_peaks_stream(ctx)
     same_file_stream(ctx)
